@@ -86,15 +86,41 @@ samples = []
 
 ctx = new_ctx(TEMPLATES, parser_function_aliases={"#invoque": "#invoke", "#si": "#if", "minus": "lc"})
 ATOMS += ["{{#invoque:m|f}}", "{{#invoque:m}}", "{{#si:x|{{a}}|n}}", "{{minus:ABC}}"]
+# a context with template override functions, and pages whose hooks raise inside lazily expanded arguments
+ctx_ov = new_ctx(TEMPLATES, template_override_funcs={"a": lambda args: "OV" + str(len(args)), "ov": lambda args: "{{b|o}}"})
+OV_PAGES = ["{{a}}", "{{a|x}}", "{{ov}}", "{{b|{{a|y}}}}", "{{#if:1|{{a}}|n}}", "{{deep}} {{ov|{{a}}}}", "<nowiki>{{a}}</nowiki>",
+            "{{a|{{ov}}}} {{nosuch|{{a}}}}"]
+BOOM_PAGES = ["{{boom}}", "{{#if:1|{{boom}}}}", "{{#switch:x|x={{boom}}|y}}", "{{pf|{{boom}}}}", "{{b|{{#if:1|{{a|{{boom}}}}}}}}",
+              "{{#ifeq:a|a|{{arg|x={{boom}}}}}}", "{{lc:{{boom}}}}", "{{a}} {{#iferror:{{boom}}|e|n}}", "{{#if:1|{{#invoke:m|f}}}}"]
+
+
+def boom_fn(name, args):
+    if name == "boom":
+        raise KeyError("boom")
+    return None
+
+
+def boom_post(name, args, text):
+    if name == "a" and "Q" in text:
+        raise ValueError("post boom")
+    return None
+
+
 mon = Monitor(SEL, on_enter, on_exit, on_unwind)
 mon.start()
 try:
-    for pi, page in enumerate(pages()):
-        opts = OPTS[pi % len(OPTS)] if (tier == "quick" and "#invo" not in page) else None
-        for o in ([opts] if opts else OPTS):
+    plan = [(ctx, pi, page, "plain") for pi, page in enumerate(pages())]
+    plan += [(ctx_ov, 100 + pi, page, "override") for pi, page in enumerate(OV_PAGES)]
+    plan += [(ctx, 200 + pi, page, "boom") for pi, page in enumerate(BOOM_PAGES + ["{{#if:1|{{a|Q}}}}"])]
+    for ctx, pi, page, mode in plan:
+        opts = OPTS[pi % len(OPTS)] if (tier == "quick" and "#invo" not in page and mode == "plain") else None
+        optlist = [opts] if opts else OPTS
+        if mode != "plain":
+            optlist = [o for o in OPTS if o[0] and (o[3] or mode == "override")]
+        for o in optlist:
             pf, inv, pre, hooks = o
             current["page"], current["opts"] = page, dict(expand_parserfns=pf, expand_invoke=inv,
-                                                          pre_expand=pre, hooks=hooks)
+                                                          pre_expand=pre, hooks=hooks, mode=mode)
             ctx.start_page("Tt")
             base = tuple(ctx.expand_stack)
             if base != ("Tt",):
@@ -103,7 +129,10 @@ try:
             if hooks:
                 kw["template_fn"] = lambda n, a: None
                 kw["post_template_fn"] = lambda n, a, t: None
-            reps = REPS if tier != "quick" or pi < 12 else 30
+            if mode == "boom":
+                kw["template_fn"] = boom_fn
+                kw["post_template_fn"] = boom_post
+            reps = REPS if tier != "quick" or pi < 12 else (120 if mode != "plain" else 30)
             depth_errs = 0
             for r in range(reps):
                 del shadow[:]
@@ -131,7 +160,7 @@ try:
                         fail("recorder#post#keys", f"record keys {sorted(rec)}")
                     elif rec["title"] != "Tt" or not isinstance(rec["path"], tuple) or rec["path"][:1] != ("Tt",):
                         fail("recorder#post#title/path", f"record {rec}")
-                    elif "too deep recursion" in rec["msg"] and "loop" not in page and "l1" not in page \
+                    elif "too deep recursion" in rec["msg"] and "loop" not in page and "{{ov" not in page and "l1" not in page \
                             and "deep" not in page and len(rec["path"]) >= 100 and \
                             len(set(rec["path"])) < 20 and page.count("{{") < 50:
                         # N flat calls must never be reported as too deeply nested
@@ -144,6 +173,7 @@ try:
                     samples.append({"page": page, "options": current["opts"], "repetitions": reps,
                                     "messages": {k: len(v) for k, v in ret.items()}})
     # every recorder appends one well-formed record to its own list only; start_page empties all five
+    ctx = plan[0][0]
     ctx.start_page("Pa")
     ctx.start_section("S1")
     names = {"error": "errors", "warning": "warnings", "debug": "debugs", "note": "notes",
@@ -175,5 +205,6 @@ emit({"evaluations": evaluations, "monitored_calls": mon.calls,
       "rule": "distinct (page, option tuple) pairs containing at least one call; each expanded `reps` times on "
               "one started page with sys.monitoring PY_START/PY_RETURN/PY_UNWIND contracts on 8 functions",
       "failures": list(failures.values()), "samples": samples,
-      "bound": f"{len(seen_cases)} page/option cases x up to {REPS} repetitions; #invoke only via early-return "
+      "bound": f"{len(seen_cases)} page/option cases x up to {REPS} repetitions (incl. a context with template_override_funcs "
+               f"and template_fn/post_template_fn hooks that raise inside lazily expanded arguments); #invoke only via early-return "
                "and too-few-arguments paths (Lua sandbox cannot start offline)"})
